@@ -272,3 +272,13 @@ pub fn fd_valid(fd: i32) -> bool {
 pub fn open_fd_count() -> usize {
     std::fs::read_dir("/proc/self/fd").map(|d| d.count()).unwrap_or(0)
 }
+
+/// Children that exercise self-pipes ignore SIGPIPE, as the Rust runtime arranges for every Rust
+/// binary: none of the listed properties claims anything about writes to a reader-less pipe.
+pub fn ignore_sigpipe() {
+    unsafe {
+        let mut sa: libc::sigaction = std::mem::zeroed();
+        sa.sa_sigaction = libc::SIG_IGN;
+        libc::sigaction(libc::SIGPIPE, &sa, std::ptr::null_mut());
+    }
+}
